@@ -67,3 +67,13 @@ func VerifDurSetTranslateFile(h *Holder, t *TranslateFile) { h.translateFile = t
 
 // VerifDurShardWidth is the number of columns per shard.
 const VerifDurShardWidth = ShardWidth
+
+// VerifDurSetBit sets one bit directly in the open fragment "index/field/view/shard"
+// (fragment.setBit: in-memory change plus one op-log entry).
+func VerifDurSetBit(h *Holder, index, field, view string, shard, rowID, columnID uint64) (bool, error) {
+	frag := h.fragment(index, field, view, shard)
+	if frag == nil {
+		return false, fmt.Errorf("no fragment %s/%s/%s/%d", index, field, view, shard)
+	}
+	return frag.setBit(rowID, columnID)
+}
